@@ -378,6 +378,37 @@ static void op_exec(struct W* w, const char* op) {
     del_raw(a); del_root(b);
     return;
   }
+  /* ---- extended operations: in contract, but they touch defects of other properties that are still open on
+          this head (DESIGN.md section 8); generated only when props/C18.py runs with C18_EXTENDED=1, i.e. once the
+          repairs of those properties have been merged ---- */
+  if (strcmp(op, "xt") == 0) {        /* D3: an exception handled by an inner handler must not reach the outer one */
+    volatile int flow = 0;
+    try {
+      try { thrower((int)imod(A(1), 3), A(0), A(2)); } catch (e in ErrA, ErrB, ErrC, KeyError) { flow = flow * 10 + 1; }
+      flow = flow * 10 + 2;
+    } catch (e) { flow = flow * 10 + 3; }
+    P("flow=%d,depth=%d", (int)flow, (int)len(current(Exception)));
+    return;
+  }
+  if (strcmp(op, "xn") == 0) {        /* F6 and the scanner's handling of %% and literal pieces */
+    var s = new(String);
+    print_to(s, 0, "%i%% of %i", $I(A(0) % 1000), $I(A(1) % 100000));
+    var i1 = new(Int), i2 = new(Int);
+    int pos = scan_from(s, 0, "%i%% of %i", i1, i2);
+    P("%d:%" PRId64 ",%" PRId64, pos, c_int(i1), c_int(i2));
+    return;
+  }
+  if (strcmp(op, "xg") == 0) {        /* D11: ranges of every shape */
+    int64_t st = imod(A(0), 11) - 5, sp = imod(A(1), 11) - 5, step = imod(A(2), 7) - 3;
+    var r = range($I(st), $I(sp), $I(step));
+    P("len=%zu[", len(r));
+    foreach (i in r) { P("%" PRId64 " ", c_int(i)); }
+    P("]back[");
+    for (var i = iter_last(r); i isnt Terminal; i = iter_prev(r, i)) { P("%" PRId64 " ", c_int(i)); }
+    P("]");
+    if (len(r) > 0) { P("get=%" PRId64 ",%" PRId64, c_int(get(r, $I(0))), c_int(get(r, $I(-1)))); }
+    return;
+  }
   if (strcmp(op, "D") == 0) {         /* dump every register */
     for (int i = 0; i < NREG; i++) {
       if (w->R[i] is NULL) continue;
@@ -405,6 +436,42 @@ static void op_exec(struct W* w, const char* op) {
     P("%s,%zu,%d%d%d%d", c_str(T), size(T), (int)implements(x, Len), (int)implements(x, Iter),
       (int)implements(x, Get), (int)implements(x, Sort));
     return;
+  }
+  if (strcmp(op, "xb") == 0) {        /* D9: backward iteration of an Array */
+    if (T isnt Array) { P("-"); return; }
+    P("["); for (var i = iter_last(x); i isnt Terminal; i = iter_prev(x, i)) { pv(i); P(" "); } P("]"); return;
+  }
+  if (strcmp(op, "xs") == 0) {        /* D12: slices with any start, stop and step */
+    if (not is_seq(x)) { P("-"); return; }
+    int64_t n = (int64_t)len(x);
+    int64_t st = imod(A(1), 2 * n + 5) - n - 2, sp = imod(A(2), 2 * n + 5) - n - 2, step = 1 + imod(A(3), 3);
+    bool back = imod(A(3), 2) and T is List;
+    P("[");
+    if (back) { foreach (i in slice(x, $I(st), $I(sp), $I(-step))) { pv(i); P(" "); } }
+    else { foreach (i in slice(x, $I(st), $I(sp), $I(step))) { pv(i); P(" "); } }
+    P("]len=%zu", len(slice(x, $I(st), $I(sp), $I(step))));
+    return;
+  }
+  if (strcmp(op, "xz") == 0) {        /* F4: zip walked backward over inputs of unequal length */
+    var y3 = w->na > 1 ? REG(1) : NULL;
+    if (not is_seq(x) or y3 is NULL or type_of(y3) isnt List or T isnt List) { P("-"); return; }
+    var z = zip(x, y3);
+    P("["); for (var p = iter_last(z); p isnt Terminal; p = iter_prev(z, p)) { pv(get(p, $I(0))); P(":"); pv(get(p, $I(1))); P(" "); } P("]");
+    return;
+  }
+  if (strcmp(op, "xr") == 0) {        /* D6: rem of a substring that is present */
+    if (T isnt String or len(x) < 2) { P("-"); return; }
+    char b[80]; size_t n = len(x); size_t a0 = (size_t)imod(A(1), (int64_t)n), l0 = 1 + (size_t)imod(A(2), (int64_t)(n - a0));
+    if (l0 > 60) l0 = 60;
+    memcpy(b, c_str(x) + a0, l0); b[l0] = 0;
+    rem(x, $S(b)); P("%s", c_str(x)); return;
+  }
+  if (strcmp(op, "xl") == 0) {        /* D7 / D8: show then look of a Float or a String */
+    if (T isnt Float and T isnt String) { P("-"); return; }
+    var s = new(String); show_to(x, s, 0);
+    var y4 = T is Float ? (var)new(Float) : (var)new(String); if (T is String) resize(y4, 100);
+    look_from(y4, s, 0);
+    pv(y4); P(",%d", (int)eq(x, y4)); return;
   }
   if (strcmp(op, "sh") == 0) { pv(x); return; }
   if (strcmp(op, "lk") == 0) {        /* show then look: Int only (Float: D8, String: D7) */
@@ -641,7 +708,7 @@ static void op_exec(struct W* w, const char* op) {
 static void guarded(struct W* w, const char* op) {
   /* the exception operations carry their own handlers and run outside any other try block: a handled
      exception inside an enclosing try would be seen again by the enclosing catch (D3) */
-  if (strcmp(op, "tc") == 0 or strcmp(op, "tn") == 0 or strcmp(op, "tf") == 0) { op_exec(w, op); return; }
+  if (strcmp(op, "tc") == 0 or strcmp(op, "tn") == 0 or strcmp(op, "tf") == 0 or strcmp(op, "xt") == 0) { op_exec(w, op); return; }
   try {
     op_exec(w, op);
   } catch (e) {
